@@ -531,6 +531,15 @@ def execute(ctx: Ctx | None, case: dict, world: World | None = None, deep: bool 
         world = World(case)
     exact = case.get("mode", "exact") == "exact"
     view = world.view()
+    bound = 100
+    if case.get("tight"):
+        # the (public) bound of the waiting area is set to exactly what this arrival order needs: the area gets full,
+        # it is never exceeded - the result must still not depend on the order, duplicates included
+        dry = Model(world)
+        for idx, mode in case["events"]:
+            dry.offer(world.alias[idx], mode, False)
+        bound = max(1, dry.max_waiting)
+        view.unchained_max_size = bound
     model = Model(world)
     last: dict = {}
     rejected_by_exception = 0
@@ -551,7 +560,7 @@ def execute(ctx: Ctx | None, case: dict, world: World | None = None, deep: bool 
             ret = None
             rejected_by_exception += 1
         model.offer(idx, mode, had_content)
-        if exact and model.max_waiting > 100:
+        if exact and model.max_waiting > bound:
             raise HarnessError("case exceeds the waiting area although it is meant to be exact")
         got = check_state(world, model, view, case, step, exact)
         if ret is not None:
@@ -759,6 +768,8 @@ def _exhaustive_shard(ctx: Ctx, shard: int, nshards: int, max_n: int, noise_per_
                             if world is None or spec_key != tokens:
                                 world, spec_key = World(case), tokens
                             execute(ctx, case, world, deep=(j // nshards) % deep_every == 0)
+                            if 2 <= n <= 5:
+                                execute(ctx, {**case, "tight": 1}, world, deep=False)
                         except Violation as v:
                             _record(ctx, v, seen)
 
@@ -789,7 +800,8 @@ def _tree_strategy(max_n: int):
                 "target": draw(st.sampled_from(["same", "fresh"])),
             }
         return {"n": n, "curve": draw(st.sampled_from(CURVES)), "owner": draw(st.integers(0, 3)),
-                "foreign": draw(st.integers(4, 7)), "tokens": tokens, "events": events, "tail": tail}
+                "foreign": draw(st.integers(4, 7)), "tokens": tokens, "events": events, "tail": tail,
+                "tight": draw(st.sampled_from([0, 0, 1]))}
     return tree()
 
 
